@@ -509,6 +509,26 @@ fn build_kb(rng: &mut Rng, p: &KbPlan, issuer_jwt: &str) -> (SdJwt, KeyBindingJW
     0 => o = o.latest_issuance_date(Timestamp::from_unix(1_600_000_000).unwrap()),
     _ => {}
   }
+  // A quarter of the scenarios hand the options over as camelCase JSON written by the harness.
+  if rng.chance(1, 4) {
+    let mut j = Map::new();
+    if let Some(n) = &o.nonce {
+      j.insert("nonce".into(), json!(n));
+    }
+    if let Some(a) = &o.aud {
+      j.insert("aud".into(), json!(a));
+    }
+    j.insert("jwsOptions".into(), serde_json::to_value(&o.jws_options).unwrap());
+    if let Some(t) = o.earliest_issuance_date {
+      j.insert("earliestIssuanceDate".into(), json!(credgen::rfc3339(t.to_unix())));
+    }
+    if let Some(t) = o.latest_issuance_date {
+      j.insert("latestIssuanceDate".into(), json!(credgen::rfc3339(t.to_unix())));
+    }
+    if let Ok(parsed) = serde_json::from_value::<KeyBindingJWTValidationOptions>(Value::Object(j)) {
+      o = parsed;
+    }
+  }
   let sd = SdJwt::new(issuer_jwt.to_string(), disclosures, if p.present { Some(kb) } else { None });
   let claims_out = claims.clone();
   (sd, o, claims_out)
